@@ -104,7 +104,7 @@ func (w *World) boundedC14(id string, opts *RunOpts, ex *Extra) {
 		"posts":  "result non-empty, valid Go identifier (go/token), first rune upper-case (exported), no underscore",
 		"inputs": total, "failures": bad, "command": cmd,
 	}}
-	ex.Assumptions = append(ex.Assumptions, "bounded stand-in: Identifierize checked on the real code for all strings up to the stated length over a representative alphabet; not proved beyond it")
+	ex.Assumptions = append(ex.Assumptions, "bounded run of Identifierize on the real code (all strings up to the stated length over a representative alphabet): a search for a concrete failing input next to the unbounded proof of the same posts (sequence mode); it decides nothing by itself")
 	if bad < 0 {
 		ex.Lines = append(ex.Lines, "ENGINE-ERROR: bounded Identifierize check did not run: "+trunc(out, 400))
 		ex.EngineError = true
